@@ -181,6 +181,7 @@ type frec struct {
 	faultGas    uint64
 	pendEffect  *uint64
 	pendJournal []string
+	pendJAttr   *jattr // the change a pending VVJNAL will record, with the call index it must be filed under
 	pendCall    *attempt
 	lastAttempt *attempt // the attempt made by this frame's previous step, if that step was a CALL-family or CREATE instruction
 	jpMark      int
@@ -200,8 +201,18 @@ type frec struct {
 	suppliedGas uint64
 }
 
+// jattr: one journaled change as the property files it (C10): account whose storage the code operates on, key, value, and the
+// call-tree index of the innermost CALL/CREATE frame executing at that moment
+type jattr struct {
+	acct common.Address
+	key  string // "slot off typ"
+	val  []byte
+	idx  int
+}
+
 type frameLogger struct {
-	lines      [][2]string // tag, op (F lines and refused-attempt lines), in order
+	expAttr    map[string]map[uint64][][]byte // acct+" "+key -> call index -> chronological values, immediate repeats collapsed
+	lines      [][2]string                    // tag, op (F lines and refused-attempt lines), in order
 	stack      []*frec
 	topAttempt *attempt
 	events     []string
@@ -372,9 +383,20 @@ func (l *frameLogger) flushPending(fr *frec, failed bool) {
 			for _, j := range fr.pendJournal {
 				l.f(j)
 			}
+			if a := fr.pendJAttr; a != nil && a.idx >= 0 {
+				k := hexAddr(a.acct) + " " + a.key
+				if l.expAttr[k] == nil {
+					l.expAttr[k] = map[uint64][][]byte{}
+				}
+				cur := l.expAttr[k][uint64(a.idx)]
+				if len(cur) == 0 || !bytes.Equal(cur[len(cur)-1], a.val) {
+					l.expAttr[k][uint64(a.idx)] = append(cur, a.val)
+				}
+			}
 		}
 		fr.pendJournal = nil
 	}
+	fr.pendJAttr = nil
 }
 
 func (l *frameLogger) onStepBoundary(depth int) *frec {
@@ -560,7 +582,7 @@ func (l *frameLogger) CaptureFault(pc uint64, op vm.OpCode, gas, cost uint64, sc
 	fr.fault, fr.faultGas = err, scope.Contract.Gas
 	if err != vm.ErrExecutionReverted {
 		// the faulting instruction had no effect
-		fr.pendEffect, fr.pendJournal, fr.pendCall = nil, nil, nil
+		fr.pendEffect, fr.pendJournal, fr.pendCall, fr.pendJAttr = nil, nil, nil, nil
 	}
 }
 
@@ -613,6 +635,15 @@ func (l *frameLogger) CaptureState(pc uint64, op vm.OpCode, gas, cost uint64, sc
 		w := l.db.GetState(self, arg(0).Bytes32())
 		if off <= 31 && size <= 32-off {
 			fr.pendJournal = []string{fmt.Sprintf("jchange %s %s %s %s", hexNatU(arg(0)), hexNatU(arg(1)), hexNatU(arg(3)), hexBytes(w[32-off-size:32-off]))}
+			idx := -1
+			for i := len(l.stack) - 1; i >= 0; i-- {
+				if l.stack[i].nodeIdx >= 0 {
+					idx = l.stack[i].nodeIdx
+					break
+				}
+			}
+			fr.pendJAttr = &jattr{acct: self, key: fmt.Sprintf("%s %s %s", hexNatU(arg(0)), hexNatU(arg(1)), hexNatU(arg(3))),
+				val: append([]byte{}, w[32-off-size:32-off]...), idx: idx}
 		}
 	case op == vm.CALL || op == vm.CALLCODE:
 		a := &attempt{kind: kindOfOp(op), caller: self, to: common.Address(arg(1).Bytes20()), value: arg(2).ToBig(),
@@ -685,6 +716,7 @@ type fgen struct {
 	aspects  map[common.Address]*aspectScript
 	creates  int
 	standard bool // standard opcodes only: LOGs instead of journal instructions, no Aspects
+	efCodes  bool // London rules apply: make creations that succeed up to returning 0xEF-prefixed code frequent (EIP-3541)
 }
 
 func (g *fgen) newAddr(prefix byte) common.Address {
@@ -759,6 +791,12 @@ func (g *fgen) genSub(depth int, create bool) *fsub {
 		// code deposit) that a creation inside a gas-limited frame fails at the deposit, after the init code ran
 		s.runtime = [][]byte{{}, {0x00}, {0x60, 0x00}, {0xef, 0x00}, make([]byte, 600), make([]byte, 20000), make([]byte, 24577)}[g.r.Intn(7)] // the last one exceeds MaxCodeSize
 		s.end = []byte{opRETURN, opRETURN, opRETURN, opREVERT, opINVALID, opSTOP}[g.r.Intn(6)]
+		if g.efCodes && g.r.Chance(30) {
+			// the init code runs to its end, with whatever it did and the endowment it got, and only then is the creation
+			// rejected for the first byte of what it returned: everything of that frame has to be undone like any other failure
+			s.runtime, s.end = [][]byte{{0xef}, {0xef, 0x00}, {0xef, 0x01, 0x02}}[g.r.Intn(3)], opRETURN
+			s.value = []int{0, 1, 1}[g.r.Intn(3)]
+		}
 		s.addr = g.newAddr(0xb0) // blob holding the init code
 		return s
 	}
@@ -948,6 +986,7 @@ func runFrameCase(r *Rng, em *Emitter, label string, tags string) {
 	if forkIndex(fork) < forkIndex("Byzantium") {
 		fork = "Byzantium" // the generated programs use STATICCALL / REVERT
 	}
+	g.efCodes = forkIndex(fork) >= forkIndex("London")
 	rootBody := g.genBody(0)
 	rootEnd := []byte{opSTOP, opRETURN, opRETURN, opREVERT, opINVALID}[r.Intn(5)]
 	root := common.BytesToAddress([]byte{0xc0, 0, 0})
@@ -985,7 +1024,7 @@ func runFrameCase(r *Rng, em *Emitter, label string, tags string) {
 	}
 
 	sdb := newStateDB()
-	lg := &frameLogger{db: sdb, failedEffs: map[uint64]bool{}, keptEffs: map[uint64]bool{}, journaled: map[string]bool{}, accounts: map[common.Address]bool{}}
+	lg := &frameLogger{db: sdb, failedEffs: map[uint64]bool{}, keptEffs: map[uint64]bool{}, journaled: map[string]bool{}, accounts: map[common.Address]bool{}, expAttr: map[string]map[uint64][][]byte{}}
 	transfer := func(db vm.StateDB, from, to common.Address, amount *big.Int) {
 		t := transferRec{from: from, to: to, amount: new(big.Int).Set(amount), bf: new(big.Int).Set(db.GetBalance(from)), bt: new(big.Int).Set(db.GetBalance(to))}
 		doTransfer(db, from, to, amount)
@@ -1247,6 +1286,38 @@ func runFrameCase(r *Rng, em *Emitter, label string, tags string) {
 		}
 	}
 	// ---- specification lines (independent of the Lean model)
+	// C10: every journaled change is filed under the account whose storage the code operates on and under the index of the innermost
+	// CALL/CREATE frame executing at that moment, in chronological order with immediate repeats collapsed; nothing else is filed there
+	{
+		keys := make([]string, 0, len(lg.expAttr))
+		for k := range lg.expAttr {
+			keys = append(keys, k)
+		}
+		sort.Strings(keys)
+		verdict := "ok"
+		sc := env.evm.Tracer().StateChanges()
+		for _, k := range keys {
+			f := strings.Fields(k)
+			ab, _ := new(big.Int).SetString(f[0], 16)
+			acct := common.BigToAddress(ab)
+			slot, _ := uint256.FromHex("0x" + f[1])
+			off, _ := uint256.FromHex("0x" + f[2])
+			typ, _ := uint256.FromHex("0x" + f[3])
+			ch, err := sc.Slot(acct, slot, off, typ.Bytes32())
+			got := "none"
+			if err == nil && ch != nil {
+				got = showChangeMap(ch.Changes())
+			}
+			if want := showChangeMap(lg.expAttr[k]); got != want {
+				verdict = fmt.Sprintf("misfiled:%s:recorded=%s:expected=%s", strings.ReplaceAll(k, " ", "/"), got, want)
+				break
+			}
+		}
+		em.Op("C10", "S jattr", verdict)
+		if len(keys) > 0 {
+			em.Count("frame:journaled-variables-checked-for-attribution")
+		}
+	}
 	// C04: nothing a failed frame (or anything below it) did survives; what succeeded all the way up does
 	leaked, lost := []string{}, []string{}
 	for id := range lg.failedEffs {
